@@ -390,7 +390,17 @@ func (s *State) exec(th *Thread, fr *Frame, in ssa.Instruction) {
 			s.dead = true
 			return
 		}
-		c := int(s.concretize(cp, "makeslice cap"))
+		if !cp.IsConst() {
+			// symbolic capacity: virtual backing object, no enumeration of sizes
+			id := s.newObject(nil, "makeslice(sym)")
+			s.heap[id].Elem = et
+			s.heap[id].Virtual = true
+			stats.stubs["makeslice:symbolic-length"]++
+			s.set(fr, x, SliceV{Obj: id, Off: 0, Len: ln, Cap: cp})
+			s.next(fr)
+			return
+		}
+		c := int(cp.K)
 		if c > 1<<24 {
 			panic(engineErr(fmt.Sprintf("makeslice: concrete cap %d too large to materialise", c)))
 		}
